@@ -18,7 +18,8 @@ import sys
 from py2v import Module, Translator, HEADER, Refuse, refuse
 
 OUT = 'Gen_signals.v'
-SOURCES = ['pcbasic/basic/display/buffers.py', 'pcbasic/interface/video_sdl2.py', 'pcbasic/basic/display/modes.py']
+SOURCES = ['pcbasic/basic/display/buffers.py', 'pcbasic/interface/video_sdl2.py', 'pcbasic/basic/display/modes.py',
+           'pcbasic/basic/display/textscreen.py', 'pcbasic/basic/machine.py', 'pcbasic/basic/display/framebuffer.py']
 
 VB_STATE = ['self._width', 'self._height', 'self._font.width', 'self._font.height']
 
@@ -118,6 +119,118 @@ def mode_table(repo):
         sys.path.remove(repo)
 
 
+# ---------------------------------------------------------------------------------------------------------
+# callers of VideoBuffer in display/textscreen.py (the envelope of the theorems)
+
+def _self_calls(fn):
+    """names of self.<m>(...) calls in a function body"""
+    out = set()
+    for n in ast.walk(fn):
+        if isinstance(n, ast.Call) and isinstance(n.func, ast.Attribute) and isinstance(n.func.value, ast.Name) \
+                and n.func.value.id == 'self':
+            out.add(n.func.attr)
+    return out
+
+
+def _mentions(fn, names):
+    for n in ast.walk(fn):
+        if isinstance(n, ast.Call) and isinstance(n.func, ast.Attribute) and n.func.attr in names:
+            return True
+    return False
+
+
+def no_clear_under_lock(mt):
+    """Fail closed unless no code reachable (through self.<method>() calls of TextScreen) from the body of a
+    `with self.collect_updates():` block calls clear_rows / clear_row_from / clear_view / clear on anything."""
+    cls = mt.find('TextScreen')
+    methods = {f.name: f for f in cls.body if isinstance(f, ast.FunctionDef)}
+    forbidden = {'clear_rows', 'clear_row_from'}
+    roots = []
+    for f in methods.values():
+        for n in ast.walk(f):
+            if isinstance(n, ast.With) and any(
+                    isinstance(i.context_expr, ast.Call) and isinstance(i.context_expr.func, ast.Attribute)
+                    and i.context_expr.func.attr == 'collect_updates' for i in n.items):
+                if f.name == 'collect_updates':
+                    continue
+                roots.append((f.name, n))
+    if len(roots) < 4:
+        refuse(cls, 'expected the collect_updates() blocks of write_chars, delete_fullchar, insert_fullchars, '
+                    'redraw_bar in TextScreen; found %d' % len(roots))
+    for owner, block in roots:
+        fake = ast.FunctionDef(name='_', args=None, body=block.body, decorator_list=[])
+        seen, todo = set(), list(_self_calls(fake))
+        if _mentions(fake, forbidden):
+            refuse(block, 'TextScreen.%s clears rows inside collect_updates()' % owner)
+        while todo:
+            m = todo.pop()
+            if m in seen or m not in methods:
+                continue
+            seen.add(m)
+            if _mentions(methods[m], forbidden):
+                refuse(methods[m], 'TextScreen.%s (reachable from the collect_updates() block of %s) clears rows: '
+                                   'the model assumes clear_rows is never called with pending dirty rows' % (m, owner))
+            todo += list(_self_calls(methods[m]))
+    return [o for o, _ in roots]
+
+
+def textscreen_shapes(mt):
+    """Fail closed unless the scroll area and the call sites with scroll-area / screen-height arguments are the
+    ones modelled in model/Signals.v (sa_* definitions) and proved in range."""
+    expect(mt.find('ScrollArea.set'), ['self._active = True', 'self._top = start', 'self._bottom = stop'],
+           'ScrollArea.set')
+    expect(mt.find('ScrollArea.unset'), ['self.set(1, self._height - 1)', 'self._active = False'],
+           'ScrollArea.unset')
+    expect(mt.find('ScrollArea.init_mode'), [
+        'self._height = mode.height',
+        'if self._bottom == self._height:\n    self.set(1, self._height)\nelse:\n    self.unset()'],
+        'ScrollArea.init_mode')
+    vp = mt.find('TextScreen.view_print_')
+    src = '\n'.join(body_src(vp))
+    for w in ('if self._tandytext and (not self._bottom_bar.visible):\n        max_line = 25\n    else:\n        max_line = 24',
+              'error.range_check(1, max_line, start, stop)', 'error.throw_if(stop < start)',
+              'self.scroll_area.set(start, stop)', 'self.scroll_area.unset()'):
+        if w not in src:
+            refuse(vp, 'TextScreen.view_print_: `%s` not found' % w)
+    # no other writer of the scroll area
+    for n in ast.walk(mt.tree):
+        if isinstance(n, ast.Call) and isinstance(n.func, ast.Attribute) and n.func.attr in ('set', 'unset') \
+                and isinstance(n.func.value, ast.Attribute) and n.func.value.attr == 'scroll_area':
+            owner = [f.name for f in ast.walk(mt.tree) if isinstance(f, ast.FunctionDef)
+                     and any(m is n for m in ast.walk(f))]
+            if owner and owner[-1] != 'view_print_':
+                refuse(n, 'scroll_area.%s called outside view_print_ (in %s)' % (n.func.attr, owner[-1]))
+    def has(fn, stmt):
+        src = '\n'.join(body_src(mt.find(fn)))
+        if stmt not in src:
+            refuse(mt.find(fn), '%s: `%s` not found' % (fn, stmt))
+    has('TextScreen.clear_view', 'self._apage.clear_rows(self.scroll_area.top, self.scroll_area.bottom, self._attr)')
+    has('TextScreen.clear', 'self._apage.clear_rows(1, self.mode.height, self._attr)')
+    has('TextScreen.redraw_bar', 'key_row = self.mode.height')
+    has('TextScreen.redraw_bar', 'self._apage.clear_rows(key_row, key_row, self._attr)')
+    has('TextScreen.scroll', 'if from_row is None:\n    from_row = self.scroll_area.top')
+    has('TextScreen.scroll', 'self._apage.scroll_up(from_row, self.scroll_area.bottom, self._attr)')
+    has('TextScreen.scroll_down', 'self._apage.scroll_down(from_row, self.scroll_area.bottom, self._attr)')
+    has('TextScreen.__init__', "self._tandytext = capabilities in ('pcjr', 'tandy')")
+
+
+def tandy_table(repo):
+    """modes reachable on the adapters where VIEW PRINT may extend to row 25"""
+    sys.path.insert(0, repo)
+    try:
+        modes = importlib.import_module('pcbasic.basic.display.modes')
+        rows = []
+        for adapter in ('tandy', 'pcjr'):
+            for key, name in sorted(modes._MODES[adapter].items(), key=str):
+                data = dict(**modes._MODE_INFO[name])
+                cls = data.pop('layout')
+                md = cls(name=name, video_mem_size=262144, **data)
+                rows.append((md.pixel_height, md.pixel_width, md.height, md.width, md.font_height, md.font_width))
+        return rows
+    finally:
+        sys.path.remove(repo)
+
+
 def generate(repo):
     out = [HEADER]
     # ---- emitter geometry
@@ -147,4 +260,19 @@ def generate(repo):
     out.append('(* %s *)' % ' '.join(names))
     out.append('Definition mode_table : list (Z * Z * Z * Z * Z * Z) :=\n  [' +
                ';\n   '.join('(%d, %d, %d, %d, %d, %d)' % r for r in rows) + '].')
+    # ---- callers in textscreen.py
+    mt = Module(os.path.join(repo, SOURCES[3]))
+    owners = no_clear_under_lock(mt)
+    textscreen_shapes(mt)
+    # the two other collect_updates() users (machine.py video memory writes -> framebuffer.py) never clear rows
+    for rel in ('pcbasic/basic/machine.py', 'pcbasic/basic/display/framebuffer.py'):
+        mo = Module(os.path.join(repo, rel))
+        if _mentions(mo.tree, {'clear_rows', 'clear_row_from', 'clear_view', 'clear_line'}):
+            raise Refuse('%s calls a row-clearing method (possibly inside collect_updates())' % rel)
+    out.append('(* textscreen.py: no clear_rows/clear_row_from reachable from the collect_updates() blocks of: %s;'
+               ' ScrollArea.set/unset/init_mode, view_print_ and the clear_view/clear/redraw_bar/scroll/scroll_down'
+               ' call sites have the modelled shape *)' % ', '.join(owners))
+    out.append('(* modes of the adapters on which VIEW PRINT may reach row 25 (tandy, pcjr) *)')
+    out.append('Definition tandy_mode_table : list (Z * Z * Z * Z * Z * Z) :=\n  [' +
+               ';\n   '.join('(%d, %d, %d, %d, %d, %d)' % r for r in tandy_table(repo)) + '].')
     return '\n'.join(out) + '\n'
